@@ -1,4 +1,4 @@
-import BpModel
+import BpModel.All
 import BpProofs.Varint
 /-
   C16 — scalar codec primitives are total, canonical and mutually inverse.
